@@ -109,6 +109,9 @@ class BGP(protocol.Protocol):
         Starts the initial negotiation of the protocol
         """
         self.init_rib()
+        # what the peer announced in an earlier session says nothing about
+        # this one; its capabilities are known once its OPEN arrives
+        cfg.CONF.bgp.running_config['capability']['remote'] = {}
         # Set transport socket options
         self.transport.setTcpNoDelay(True)
         # set tcp option if you want
@@ -541,6 +544,11 @@ class BGP(protocol.Protocol):
                     if cfg.CONF.bgp.running_config['capability']['local']['add_path'] in \
                             ['ipv4_receive', 'ipv4_both']:
                         self.add_path_ipv4_receive = True
+                if cfg.CONF.bgp.running_config['capability']['remote']['add_path'] in \
+                        ['ipv4_receive', 'ipv4_both']:
+                    if cfg.CONF.bgp.running_config['capability']['local'].get('add_path') in \
+                            ['ipv4_send', 'ipv4_both']:
+                        self.add_path_ipv4_send = True
 
             LOG.info("--%s = %s", key, cfg.CONF.bgp.running_config['capability']['remote'][key])
 
